@@ -279,7 +279,7 @@ func (ts *SimpleTimers) iterate(ctx context.Context) error {
 
 		_ = wk.NewJob(func(context.Context, uint64) error {
 			if keep, err := tr.run(); err != nil || !keep {
-				_ = ts.removeTimer(tr.id)
+				_ = ts.removeFinishedTimer(tr)
 			}
 
 			return nil
@@ -336,6 +336,23 @@ func (ts *SimpleTimers) removeTimer(id TimerID) bool {
 		}
 
 		return nil
+	})
+
+	return removed
+}
+
+// removeFinishedTimer removes the timer only if it is still the registered one;
+// the same id may be already registered again with the another timer.
+func (ts *SimpleTimers) removeFinishedTimer(timer *SimpleTimer) bool {
+	removed, _ := ts.timers.Remove(timer.id, func(i *SimpleTimer, found bool) error {
+		switch {
+		case !found, i != timer:
+			return ErrLockedSetIgnore
+		default:
+			i.whenRemoved()
+
+			return nil
+		}
 	})
 
 	return removed
